@@ -2,7 +2,8 @@
   C12 — Closest and interior points lie on the geometry.
 
   Property theorems only. Models: GeoModel/Closest.lean (`Geo.CP`), GeoModel/InteriorPoint.lean
-  (`Geo.IP`). Helper layers: GeoProofs/Lemmas/C12{Line,Fold,Closest,Interior}.lean.
+  (`Geo.IP`). Helper layers: GeoProofs/Lemmas/C12{Line,Fold,Closest,Interior}.lean and
+  C12Q{Cross,Scan,Simple,Fold,Valid}.lean (crossing structure of the scan line).
 
   closest_point: `Spec p H L c` (Lemmas/C12Line) says what an answer `c` must satisfy w.r.t. the
   hit condition `H` and the candidate locus `L`; `closest_spec_all` proves it for every geometry
@@ -17,6 +18,7 @@ import GeoProofs.Lemmas.C12Interior
 import GeoProofs.Lemmas.C12QScan
 import GeoProofs.Lemmas.C12QSimple
 import GeoProofs.Lemmas.C12QFold
+import GeoProofs.Lemmas.C12QValid
 import Mathlib.Tactic.NormNum
 
 namespace Geo.Proofs.C12
@@ -344,8 +346,12 @@ theorem interior_polygon_on_geometry (loc : Pt → Pos) (poly : Poly) (x : Pt) (
      ∀ valid poly, ∃ x w, polyScan (locate (.polygon poly)) poly = some (x, w) ∧ locate (.polygon poly) x = .inside
    It needs: a horizontal line strictly between two vertex ordinates meets the interior of a valid
    polygon in an interval of positive width whose midpoint is off the boundary. That existence
-   statement is standard geometry [S]; the correspondence ties it down (tag `vertex-fallback` never
-   appears on valid input, and the checker demands `Inside` of the implementation's point). -/
+   statement is PROVED below for hole-free polygons with a simple exterior ring
+   (`interior_strict_ringSimple`, `interior_polygon_inside_simple`; no further hypothesis) and for
+   `polyValid` polygons with holes under three explicit cross-ring hypotheses
+   (`interior_strict_valid_partial`); for the remaining part the correspondence ties it down (tag
+   `vertex-fallback` never appears on valid input, and the checker demands `Inside` of the
+   implementation's point). -/
 /-- [Tp] `interior_strict_partial`: *if* no scan midpoint lies on the boundary and some scan
 midpoint is `Inside`, the returned point is `Inside`. -/
 theorem interior_strict_partial (loc : Pt → Pos) (poly : Poly) (mn mx : Pt)
@@ -934,6 +940,51 @@ example : ∃ x w, polyScan (locate (.polygon ⟨[⟨0, 0⟩, ⟨6, 0⟩, ⟨6, 
   interior_strict_holes_wound_partial _ ⟨0, 0⟩ ⟨6, 6⟩ (by decide +kernel)
     ⟨⟨0, 0⟩, by simp, ⟨6, 6⟩, by simp, by norm_num⟩ (by decide +kernel) (by decide +kernel)
     (by decide +kernel) (by decide +kernel)
+
+/- Full statement: `polyValid poly = true → getBoundingRect poly.ext = some (mn, mx) → …` (the model's
+   `interior_point` of every OGC-valid polygon is `Inside`). Derived from `polyValid` here: every ring
+   simple and closed, shell bounding box proper, crossings of one ring pairwise distinct, hole
+   coordinates inside the shell's bounding box (clause `BE = F` of the hole/shell matrix). NOT derived
+   (they need the topology of the arrangement, not only point location): two different rings do not
+   cross the scan line at the same abscissa (they could only meet there off their vertices), and the
+   shell winds around the points where holes cross the scan line. -/
+/-- [Tp] `interior_strict_valid_partial`: an OGC-valid polygon (`polyValid`) with holes, under the
+three explicit cross-ring hypotheses above: the model's `interior_point` is `Inside`. -/
+theorem interior_strict_valid_partial (poly : Poly) (mn mx : Pt)
+    (hv : polyValid poly = true)
+    (hb : getBoundingRect poly.ext = some (mn, mx))
+    (hce : ∀ hole ∈ poly.ints,
+      ∀ t ∈ (windows2 hole).flatMap (hitXs ⟨mn.x, yMid mn mx poly.coords⟩ ⟨mx.x, yMid mn mx poly.coords⟩),
+        t ∉ (windows2 poly.ext).flatMap (hitXs ⟨mn.x, yMid mn mx poly.coords⟩ ⟨mx.x, yMid mn mx poly.coords⟩))
+    (hch : poly.ints.Pairwise (fun h1 h2 =>
+      ∀ t ∈ (windows2 h1).flatMap (hitXs ⟨mn.x, yMid mn mx poly.coords⟩ ⟨mx.x, yMid mn mx poly.coords⟩),
+        t ∉ (windows2 h2).flatMap (hitXs ⟨mn.x, yMid mn mx poly.coords⟩ ⟨mx.x, yMid mn mx poly.coords⟩)))
+    (hwound : ∀ hole ∈ poly.ints,
+      ∀ t ∈ (windows2 hole).flatMap (hitXs ⟨mn.x, yMid mn mx poly.coords⟩ ⟨mx.x, yMid mn mx poly.coords⟩),
+        windingE (EPt.ofPt ⟨t, yMid mn mx poly.coords⟩) poly.ext ≠ 0) :
+    ∃ x w, polyScan (locate (.polygon poly)) poly = some (x, w) ∧
+      locate (.polygon poly) x = .inside := by
+  obtain ⟨hsimple, hclosed, ⟨hx, hyy⟩, hin⟩ := valid_scan_facts hv hb
+  obtain ⟨hbd, _, _, ⟨pl, hpl, hply⟩, ⟨ph, hph, hphy⟩⟩ :=
+    Geo.Proofs.C19.getBoundingRect_bounds poly.ext mn mx hb
+  have hflat : ∃ c ∈ poly.ext, ∃ c' ∈ poly.ext, c.y ≠ c'.y :=
+    ⟨pl, hpl, ph, hph, by rw [hply, hphy]; exact ne_of_lt hyy⟩
+  have hextc : ∀ v ∈ poly.ext, v ∈ poly.coords := fun v hv => by
+    unfold Poly.coords; exact List.mem_append_left _ hv
+  have hy := yMid_avoids_vertices mn mx poly.coords ⟨pl, hextc _ hpl, by rw [hply]; linarith⟩
+  have hnd := hits_nodup_of_rings poly mn.x mx.x _ hy (fun v hv => (hin v hv).1) hx hsimple hce hch
+  apply interior_strict_holes_wound_partial poly mn mx hclosed hflat hb hin hnd
+  intro hole hh e he t ht
+  exact hwound hole hh t (List.mem_flatMap.2 ⟨e, he, ht⟩)
+
+/-- the square with a square hole is `polyValid` and satisfies the cross-ring hypotheses -/
+example : ∃ x w, polyScan (locate (.polygon ⟨[⟨0, 0⟩, ⟨6, 0⟩, ⟨6, 6⟩, ⟨0, 6⟩, ⟨0, 0⟩],
+      [[⟨2, 2⟩, ⟨2, 5⟩, ⟨4, 5⟩, ⟨4, 2⟩, ⟨2, 2⟩]]⟩))
+      ⟨[⟨0, 0⟩, ⟨6, 0⟩, ⟨6, 6⟩, ⟨0, 6⟩, ⟨0, 0⟩], [[⟨2, 2⟩, ⟨2, 5⟩, ⟨4, 5⟩, ⟨4, 2⟩, ⟨2, 2⟩]]⟩ = some (x, w) ∧
+    locate (.polygon ⟨[⟨0, 0⟩, ⟨6, 0⟩, ⟨6, 6⟩, ⟨0, 6⟩, ⟨0, 0⟩],
+      [[⟨2, 2⟩, ⟨2, 5⟩, ⟨4, 5⟩, ⟨4, 2⟩, ⟨2, 2⟩]]⟩) x = .inside :=
+  interior_strict_valid_partial _ ⟨0, 0⟩ ⟨6, 6⟩ (by decide +kernel) (by decide +kernel)
+    (by decide +kernel) (by decide +kernel) (by decide +kernel)
 
 /-- [T] `interior_strict_simple`: a polygon without holes whose exterior ring is closed and not flat
 (two distinct ordinates) and meets the scan line at pairwise distinct abscissae (true of every simple
